@@ -330,7 +330,6 @@ func (s *memStream) snapshot() []Resp {
 	return append([]Resp(nil), s.sent...)
 }
 
-
 // ---------------------------------------------------------------------------
 // input-side relations (generator and labels only; the judgement is Coq's)
 
